@@ -4,8 +4,10 @@
 # The final confirmation of DESIGN.md 0.5 uses tools/confirm_seed.sh, which applies the patch to /repo itself and undoes it.
 name=$1; tier=$2; shift 2
 wt=${SEED_WT:-/tmp/seedv}
+# <seed name> may also be the path of any patch file (e.g. a behaviour-preserving refactoring used to look for false alarms)
+if [ -f "$name" ]; then patch=$name; name=$(basename $name .diff); else patch=/verif/seeded/$name/patch.diff; fi
 [ -d $wt ] || git -C /repo worktree add -q --detach $wt HEAD
-cd $wt && git checkout -q --detach $(git -C /repo rev-parse HEAD) && git checkout -q -- . && git apply /verif/seeded/$name/patch.diff || { echo "patch does not apply"; exit 3; }
+cd $wt && git checkout -q --detach $(git -C /repo rev-parse HEAD) && git checkout -q -- . && git apply $patch || { echo "patch does not apply"; exit 3; }
 cd /verif
 for id in "$@"; do
     VERIF_REPO=$wt ./vcheck $id $tier > /tmp/try_${name}_${id}.log 2>&1
